@@ -504,6 +504,8 @@ class FnTranslator:
                     return self.expr(c, env, after_c)
                 err(iln, "unsupported control flow: an `if` statement that is not `if c { ..; return e; }` "
                          "(an `if` is supported as the value of a `let` / store, and in tail position)")
+            if e[0] == "macro":
+                err(ln, f"macro {e[2]}! is outside the translator's grammar")
             err(ln, "expression statement without effect (only stores and `if c { return .. }`)")
         err(st[1], f"unsupported statement {kind}")
 
@@ -998,12 +1000,18 @@ def sensitivity(src):
     """Self-test of "never silently skipped": every single-token edit of a method body out of a fixed family (an
     arithmetic / comparison operator replaced by its neighbour, an integer literal incremented, a float literal
     replaced by another one of the model, `self.bin` <-> `self.hop`, `self.signal` <-> `self.window`, `[..n]` <->
-    `[n..]`) must either be rejected or change the generated text."""
+    `[n..]`, a use of a local variable replaced by another local of the same function) must either be rejected or
+    change the generated text."""
     base, _ = translate_text(src)
     sites = []
     for owner, trait, f in parse_file(src):
         toks = f["body_toks"]
         where = f"{owner}::{f['name']}"
+        locals_ = [n for n, _ in f["params"]]
+        for j, t in enumerate(toks):
+            if t.k == "id" and t.t not in locals_ and t.t != "_" and (toks[j - 1].t in ("let", "|") or (toks[j - 1].t == "mut" and toks[j - 2].t == "let")
+                                                                       or (toks[j - 1].t in ("(", ",") and any(x.t == "let" for x in toks[max(0, j - 4):j]) and toks[j + 1].t in (",", ")"))):
+                locals_.append(t.t)
         for j, t in enumerate(toks):
             if t.k == "op" and t.t in MUT_OPS:
                 sites.append((t, MUT_OPS[t.t], where))
@@ -1013,6 +1021,10 @@ def sensitivity(src):
                 sites.append((t, "0.5" if t.t != "0.5" else "1.0", where))
             elif t.k == "id" and t.t in MUT_FIELDS and j >= 2 and toks[j - 1].t == "." and toks[j - 2].t == "self":
                 sites.append((t, MUT_FIELDS[t.t], where))
+            elif t.k == "id" and t.t in locals_ and len(locals_) > 1 and toks[j - 1].t not in ("let", "mut", ".", "|", "::") \
+                    and not (toks[j + 1].t == ":" and toks[j + 2].t != ":") and toks[j + 1].t != "::":
+                # a use of a local replaced by the next local of the same function
+                sites.append((t, locals_[(locals_.index(t.t) + 1) % len(locals_)], where))
             elif t.k == "op" and t.t == ".." and toks[j - 1].t == "[":
                 # `[..e]` -> `[e..]`: move the `..` behind the bound (one balanced expression up to `]`)
                 depth, m = 0, j + 1
